@@ -32,6 +32,14 @@
 //	                          shots take 2.6 s, <behind> tokens 100..300 ms behind them (picked up >= 2.3 s late), then
 //	                          <ordinary> on-time tokens 10 ms apart; every line of the phout file is judged
 //
+//	pool <discard 0|1> <perinst 0|1> <start,start,...> <m:off,off,...|p:segs> <durs/durs/...|->
+//	                          the REAL engine, ONE POOL with as many instances as there are <start>s (ms; a mock startup
+//	                          schedule hands them out), rps-per-instance as given: every instance gets a schedule of its own
+//	                          (perinst 1) or all draw from one shared schedule; the schedule is a mock token list (m: offsets
+//	                          in ms from its first Next()) or a REAL finite composite profile (p: segments as in prof);
+//	                          the j-th Shoot of the k-th instance sleeps durs[k][j] ms (0 when not given).  Every Next(),
+//	                          Shoot and Report is attributed to its instance (the goroutine instance.Run runs on).
+//
 // Observation: one field per token, only booleans / inequalities, never raw times:
 //
 //	w:   <ok><slow><not_early><late_enter><late_ret>   (IsSlowDown after Wait; measured instants before/after Wait
@@ -44,6 +52,9 @@
 //	proftail (same run as prof): t=<no shot of the unlimited tail before the tail's configured start>
 //	cfg: one bit per pool (DiscardOverflow)
 //	ph:  N=<lines> F=<lines tagged by the gun with net 0 / proto 200> D=<lines 'discarded' with net 777> X=<other lines> S=<Shoot calls>
+//	pool: per token <instance>:<F|D|L><not_early><late2s at hand-out><late2s at Shoot entry / discard report> (L = neither fired nor
+//	      reported; grouped by instance for own schedules, in hand-out order for the shared one), then R=<reports that are
+//	      777/'discarded'> X=<other reports + events outside any token> S=<schedules built>
 //	eng: <F|D><not_early><late2s><sample_ok>            (F fired / D reported as discarded; instant of Shoot entry or of
 //	                                                     the discard report against the token; D: net code 777 + tag)
 //
@@ -58,6 +69,7 @@ import (
 	"os"
 	"os/exec"
 	"path/filepath"
+	"runtime"
 	"strconv"
 	"strings"
 	"sync"
@@ -154,6 +166,17 @@ type sim struct {
 	fixed     bool
 	w         wsim
 	minMargin int64
+	// zeroDue: the call chain is the one that started the schedule (its first Next() defines the token times), so
+	// relative to the tokens its instants can only drift later than planned: a token planned to be due by exactly
+	// 0 ns is due in reality as well
+	zeroDue bool
+}
+
+func (s *sim) cmpDue(x int64) {
+	if s.zeroDue && x == 0 {
+		return
+	}
+	s.cmp(x)
 }
 
 func (s *sim) cmp(x int64) { // a comparison "x <= 0" / "x < 0": distance of x from the boundary
@@ -168,7 +191,7 @@ func (s *sim) cmp(x int64) { // a comparison "x <= 0" / "x < 0": distance of x f
 // wait returns the nominal return instant
 func (s *sim) wait(next, enter int64) int64 {
 	if s.w.has {
-		s.cmp(next - s.w.last)
+		s.cmpDue(next - s.w.last)
 		if next-s.w.last <= 0 {
 			od := s.w.last - next
 			if s.fixed {
@@ -186,7 +209,7 @@ func (s *sim) wait(next, enter int64) int64 {
 		}
 	}
 	s.w.has, s.w.last = true, enter
-	s.cmp(next - enter)
+	s.cmpDue(next - enter)
 	if next-enter <= 0 {
 		s.w.overdue = enter - next
 		s.cmp(s.w.overdue - window)
@@ -744,6 +767,275 @@ func runPh(fields []string) string {
 	return "disturbed"
 }
 
+// ---- a whole pool: several instances, own schedules or the shared one ----
+
+// goid: the id of the calling goroutine. instance.Run takes the token (Next), fires (Shoot) and reports the
+// discarded sample (Report) on one goroutine per instance, which is what attributes every event to its token.
+func goid() int64 {
+	var buf [64]byte
+	n := runtime.Stack(buf[:], false)
+	f := strings.Fields(string(buf[:n]))
+	if len(f) < 2 {
+		return -1
+	}
+	id, err := strconv.ParseInt(f[1], 10, 64)
+	if err != nil {
+		return -1
+	}
+	return id
+}
+
+type ptok struct {
+	inst             int
+	tok, handout, at int64
+	fate             byte // 'F' fired, 'D' reported as discarded, 'L' neither
+}
+
+type poolRec struct {
+	mu      sync.Mutex
+	t0      time.Time
+	instOf  map[int64]int
+	cur     map[int64]*ptok
+	all     []*ptok
+	byInst  [][]*ptok
+	okRep   int
+	badRep  int
+	orphans int
+	scheds  int
+}
+
+type poolSched struct {
+	inner core.Schedule
+	rec   *poolRec
+}
+
+func (s *poolSched) Start(at time.Time) { s.inner.Start(at) }
+func (s *poolSched) Left() int {
+	s.rec.mu.Lock()
+	defer s.rec.mu.Unlock()
+	return s.inner.Left()
+}
+func (s *poolSched) Next() (time.Time, bool) {
+	g := goid()
+	r := s.rec
+	r.mu.Lock()
+	defer r.mu.Unlock()
+	before := time.Since(r.t0).Nanoseconds()
+	t, ok := s.inner.Next()
+	if !ok {
+		delete(r.cur, g)
+		return t, ok
+	}
+	k, seen := r.instOf[g]
+	if !seen {
+		k = len(r.instOf)
+		r.instOf[g] = k
+		r.byInst = append(r.byInst, nil)
+	}
+	p := &ptok{inst: k, tok: t.Sub(r.t0).Nanoseconds(), handout: before, fate: 'L'}
+	r.cur[g] = p
+	r.all = append(r.all, p)
+	r.byInst[k] = append(r.byInst[k], p)
+	return t, ok
+}
+
+type poolGun struct {
+	rec  *poolRec
+	durs [][]int64
+	n    int
+}
+
+func (g *poolGun) Bind(core.Aggregator, core.GunDeps) error { return nil }
+func (g *poolGun) Shoot(core.Ammo) {
+	r := g.rec
+	at := time.Since(r.t0).Nanoseconds()
+	id := goid()
+	d := int64(0)
+	r.mu.Lock()
+	if p := r.cur[id]; p == nil || p.fate != 'L' {
+		r.orphans++
+	} else {
+		p.fate, p.at = 'F', at
+		if p.inst < len(g.durs) && g.n < len(g.durs[p.inst]) {
+			d = g.durs[p.inst][g.n]
+		}
+	}
+	r.mu.Unlock()
+	g.n++
+	time.Sleep(time.Duration(d))
+}
+
+type poolAggr struct{ rec *poolRec }
+
+func (a *poolAggr) Run(ctx context.Context, _ core.AggregatorDeps) error { <-ctx.Done(); return nil }
+func (a *poolAggr) Report(s core.Sample) {
+	r := a.rec
+	at := time.Since(r.t0).Nanoseconds()
+	id := goid()
+	ns, ok := s.(*netsample.Sample)
+	// the property's own words: net code 777, tag 'discarded'
+	good := ok && ns.Tags() == "discarded" && strings.Contains(ns.String(), "\t777\t")
+	r.mu.Lock()
+	defer r.mu.Unlock()
+	if p := r.cur[id]; p == nil || p.fate != 'L' {
+		r.orphans++
+	} else {
+		p.fate, p.at = 'D', at
+	}
+	if good {
+		r.okRep++
+	} else {
+		r.badRep++
+	}
+}
+
+func parseDurs(s string) [][]int64 {
+	var out [][]int64
+	if s == "-" || s == "" {
+		return out
+	}
+	for _, x := range strings.Split(s, "/") {
+		out = append(out, parseList(x))
+	}
+	return out
+}
+
+func runPool(fields []string) string {
+	discard, perinst := fields[0] == "1", fields[1] == "1"
+	starts := parseList(fields[2])
+	spec := fields[3]
+	durs := parseDurs(fields[4])
+	if len(spec) < 2 || (spec[:2] != "m:" && spec[:2] != "p:") {
+		return "unknown-case"
+	}
+	mk := func() core.Schedule {
+		if spec[:2] == "m:" {
+			return &offSchedule{offs: parseList(spec[2:])}
+		}
+		return buildProfile(spec[2:])
+	}
+	for attempt := 0; attempt < maxAttempts; attempt++ {
+		before := disturbances.Load()
+		rec := &poolRec{instOf: map[int64]int{}, cur: map[int64]*ptok{}}
+		startup := &offSchedule{offs: starts}
+		conf := engine.Config{Pools: []engine.InstancePoolConfig{{
+			Provider:   endlessProvider{},
+			Aggregator: &poolAggr{rec: rec},
+			NewGun:     func() (core.Gun, error) { return &poolGun{rec: rec, durs: durs}, nil },
+			NewRPSSchedule: func() (core.Schedule, error) {
+				rec.mu.Lock()
+				rec.scheds++
+				rec.mu.Unlock()
+				return &poolSched{inner: mk(), rec: rec}, nil
+			},
+			RPSPerInstance:  perinst,
+			StartupSchedule: startup,
+			DiscardOverflow: discard,
+		}}}
+		m := engine.Metrics{Request: &monitoring.Counter{}, Response: &monitoring.Counter{}, InstanceStart: &monitoring.Counter{}, InstanceFinish: &monitoring.Counter{}}
+		eng := engine.New(zap.NewNop(), m, conf)
+		ctx, cancel := context.WithTimeout(context.Background(), 40*time.Second)
+		rec.t0 = time.Now()
+		startup.Start(rec.t0)
+		err := eng.Run(ctx)
+		cancel()
+		eng.Wait()
+		rec.mu.Lock()
+		var obs []string
+		if err != nil {
+			obs = append(obs, "run-error")
+		}
+		field := func(p *ptok) string {
+			return fmt.Sprintf("%d:%c%s%s%s", p.inst, p.fate, b(p.fate != 'L' && p.at >= p.tok), b(p.handout-p.tok >= window), b(p.fate != 'L' && p.at-p.tok >= window))
+		}
+		if perinst {
+			for _, l := range rec.byInst {
+				for _, p := range l {
+					obs = append(obs, field(p))
+				}
+			}
+		} else {
+			for _, p := range rec.all {
+				obs = append(obs, field(p))
+			}
+		}
+		obs = append(obs, fmt.Sprintf("R=%d X=%d S=%d", rec.okRep, rec.badRep+rec.orphans, rec.scheds))
+		rec.mu.Unlock()
+		if disturbances.Load() == before {
+			return strings.Join(obs, " ")
+		}
+	}
+	return "disturbed"
+}
+
+// planPool: the nominal timeline of a pool case (same rules as the model's run_pool): the smallest margin of any
+// comparison made by the code, the observation or the hand-out order, the end of the run, and whether some token
+// is picked up >= 2 s late.
+func planPool(discard, perinst bool, starts, offs []int64, durs [][]int64, fixed bool) (int64, int64, bool) {
+	n := len(starts)
+	sims := make([]*sim, n)
+	free := make([]int64, n)
+	fired := make([]int, n)
+	minM := int64(1) << 62
+	for k := range sims {
+		sims[k] = &sim{fixed: fixed, minMargin: 1 << 62, zeroDue: perinst || k == 0}
+		free[k] = starts[k]
+	}
+	late := false
+	step := func(k int, tok int64) {
+		s := sims[k]
+		enter := free[k]
+		ret := s.wait(tok, enter)
+		s.cmp(enter - tok - window)
+		s.cmp(ret - tok - window)
+		if enter-tok >= window {
+			late = true
+		}
+		if discard && s.w.overdue >= window {
+			free[k] = ret
+			return
+		}
+		d := int64(0)
+		if k < len(durs) && fired[k] < len(durs[k]) {
+			d = durs[k][fired[k]]
+		}
+		fired[k]++
+		free[k] = ret + d
+	}
+	if perinst {
+		for k := 0; k < n; k++ {
+			for _, off := range offs {
+				step(k, starts[k]+off)
+			}
+		}
+	} else {
+		for _, off := range offs {
+			best := 0
+			for k := 1; k < n; k++ {
+				if free[k] < free[best] {
+					best = k
+				}
+			}
+			for k := 0; k < n; k++ {
+				if k != best && free[k]-free[best] < minM {
+					minM = free[k] - free[best]
+				}
+			}
+			step(best, starts[0]+off)
+		}
+	}
+	end := int64(0)
+	for k := 0; k < n; k++ {
+		if sims[k].minMargin < minM {
+			minM = sims[k].minMargin
+		}
+		if free[k] > end {
+			end = free[k]
+		}
+	}
+	return minM, end, late
+}
+
 type oneSchedule struct {
 	t    time.Time
 	used bool
@@ -833,6 +1125,10 @@ func runCase(c string, idx int) string {
 	case "ph":
 		if len(f) == 5 {
 			return runPh(f[1:])
+		}
+	case "pool":
+		if len(f) == 6 {
+			return runPool(f[1:])
 		}
 	case "prof", "proftail":
 		if len(f) == 6 {
@@ -1067,6 +1363,94 @@ func gen(r *vh.Rand, tier string) []string {
 		if tail != "-" && made%3 == 0 {
 			out = append(out, "proftail "+line)
 		}
+		made++
+	}
+	// whole pools: 1..4 instances started one after another, own schedules (rps-per-instance) or the shared one,
+	// discard_overflow on/off, a mock token list or a real finite profile, per instance a response-time history
+	nPool := 24
+	if tier == "thorough" {
+		nPool = 160
+	}
+	calm := 0
+	for made := 0; made < nPool; {
+		n := r.Range(1, 4)
+		perinst := r.Chance(3, 5)
+		discard := r.Chance(3, 4)
+		var offs []int64
+		var spec string
+		if r.Chance(1, 2) {
+			nt := r.Range(3, 8)
+			t := int64(0)
+			for i := 0; i < nt; i++ {
+				if i > 0 {
+					t += int64(r.PickInt([]int{0, 50, 100, 100, 400, 700, 900})) * ms
+				}
+				offs = append(offs, t)
+			}
+			spec = "m:" + joinMs(offs)
+		} else {
+			var segs []string
+			start := int64(0)
+			for i, ns := 0, r.Range(1, 2); i < ns; i++ {
+				if r.Chance(1, 3) {
+					k := r.Range(1, 3)
+					segs = append(segs, fmt.Sprintf("once.%d", k))
+					for j := 0; j < k; j++ {
+						offs = append(offs, start)
+					}
+				} else {
+					ops := int64(r.PickInt([]int{2, 4, 5, 10}))
+					dur := int64(r.PickInt([]int{500, 1000})) * ms
+					segs = append(segs, fmt.Sprintf("const.%d.%d", ops, dur/ms))
+					for k := int64(0); k < ops*dur/(1000*ms); k++ {
+						offs = append(offs, start+k*(1000*ms/ops))
+					}
+					start += dur
+				}
+			}
+			spec = "p:" + strings.Join(segs, ";")
+		}
+		if len(offs) == 0 || len(offs) > 12 {
+			continue
+		}
+		identical := r.Chance(1, 3)
+		var durs [][]int64
+		for k := 0; k < n; k++ {
+			var d []int64
+			if identical && k > 0 {
+				d = durs[0]
+			} else if r.Chance(3, 4) { // one slow response puts the instance behind
+				for j, pos := 0, r.Intn(3); j < pos; j++ {
+					d = append(d, 25*ms)
+				}
+				d = append(d, int64(r.PickInt([]int{1200, 2300, 2600, 3000, 3200, 3500}))*ms)
+			}
+			durs = append(durs, d)
+		}
+		gap := int64(r.PickInt([]int{300, 500, 700})) * ms
+		if perinst && identical && r.Chance(1, 2) {
+			gap = 0 // all at once (startup once(n)): the instances are indistinguishable
+		}
+		var starts []int64
+		for k := 0; k < n; k++ {
+			starts = append(starts, int64(k)*gap)
+		}
+		m1, end, late := planPool(discard, perinst, starts, offs, durs, true)
+		m2, _, _ := planPool(discard, perinst, starts, offs, durs, false)
+		if m1 < margin || m2 < margin || end > 6500*ms {
+			continue
+		}
+		if !late {
+			if calm*3 >= nPool { // at most a third of the pool cases without an overloaded instance
+				continue
+			}
+			calm++
+		}
+		var ds []string
+		for _, d := range durs {
+			ds = append(ds, joinMs(d))
+		}
+		out = append(out, fmt.Sprintf("pool %s %s %s %s %s", b(discard), b(perinst), joinMs(starts), spec, strings.Join(ds, "/")))
 		made++
 	}
 	cnt := 0
